@@ -887,9 +887,14 @@ class LoopSpec:
 class Contract:
     def __init__(self, name, requires=None, ensures=None, assigns=None, loops=None, transparent=False,
                  pure=False, extern=False, props=(), unroll=None, model=None, ghost_init=None, inputs=None,
-                 note=None, cases=None, logic=None):
+                 note=None, cases=None, logic=None, lang_requires=None):
         self.name = name
-        self.requires = requires or (lambda c: [])
+        # lang_requires: guarantees of the language / calling convention (distinct references do not overlap, ...);
+        # requires: the domain over which the functional postcondition is stated
+        self.lang_requires = lang_requires or (lambda c: [])
+        dom = requires or (lambda c: [])
+        self.domain_requires = dom
+        self.requires = (lambda c, _l=self.lang_requires, _d=dom: list(_l(c)) + list(_d(c)))
         self.ensures = ensures or (lambda c: [])
         self.assigns = assigns       # None => writes nothing outside its own frame
         self.loops = loops or {}
